@@ -1,7 +1,7 @@
 (* C04 - Full loading never imports, calls or instantiates what a document names.   ONLY statements + `exact lemma`. *)
 From Coq Require Import List String Bool.
 Import ListNotations.
-Require Import Registry GenHistory CallGraph GenCalls Dispatch Confinement ConfineLemmas.
+Require Import Registry GenHistory CallGraph GenCalls Dispatch Confinement ConfineLemmas ConfineFull ConfineUnsafe.
 Open Scope string_scope.
 
 (* KIND C04_object_tags_rejected : U *)
